@@ -12,7 +12,8 @@ THEOREMS = ['C12_dispatch_total', 'C12_error_class', 'C12_multi_range', 'C12_int
             'C12_field_format', 'C12_field_window', 'timedGuards_time', 'C12_timed_fields_below_60', 'timedCore_time',
             'timedGuards_speed', 'C12_timed_speed_window',
             'timedDecide_plain_lt', 'C12_plain_seconds_idempotent_partial', 'C12_plain_seconds_returned_unchanged',
-            'timedDecide_again', 'C12_no_hours_below_800', 'C12_mss_idempotent_partial', 'C12_mss_returned_unchanged']
+            'timedDecide_again', 'C12_no_hours_below_800', 'C12_mss_idempotent_partial', 'C12_mss_returned_unchanged',
+            'timedDecide_again_h', 'C12_hmmss_idempotent_partial', 'C12_hmmss_returned_unchanged']
 
 class EK(Exception):
     pass
